@@ -24,12 +24,12 @@ TEXT = {
     "C06": ("DESIGN §2 C06", "TimeDelta as exact nanosecond count in a closed range"),
     "C07": ("DESIGN §2 C07", "time-of-day validity, wrap-around arithmetic and leap-second rules"),
     "C08": ("DESIGN §2 C08", "month stepping, field replacement, week helpers"),
-    "C09": ("DESIGN §2 C09", "default text forms parse back (shape-contract split writer/reader)"),
+    "C09": ("DESIGN §2 C09 / §8.2", "default text forms: NaiveDate/offset/names Display -> FromStr (K), values printed by NaiveTime Debug (M)"),
     "C10": ("DESIGN §2 C10 / §8.2", "RFC 3339 writer conformance (date, time per fraction class, offset); reader not built"),
     "C11": ("DESIGN §2 C11 / §8.2", "RFC 2822 writer shape with the reference weekday; reader not built"),
-    "C12": ("DESIGN §2 C12", "strftime specifiers vs a reference renderer"),
+    "C12": ("DESIGN §2 C12 / §8.2", "numeric and offset strftime items vs a reference renderer (K), year/century writer decisions over all i32 (M)"),
     "C13": ("DESIGN §2 C13 / §8.2", "format/parse inverse at item level for %H:%M:%S and %Y-%m-%d (real writer -> real parser)"),
-    "C14": ("DESIGN §2 C14", "Parsed field resolution soundness/completeness over all field subsets"),
+    "C14": ("DESIGN §2 C14 / §8.2", "Parsed field resolution soundness over field subsets (K), timestamp reconstruction over all i64 (M)"),
     "C15": ("DESIGN §2 C15", "no panic / overflow / invalid value in fallible entry points; StrftimeItems progress step"),
     "C16": ("DESIGN §2 C16 / §8.2", "accepted zones answer every query without panic/overflow (bounded table, full-domain rule evaluator); byte-level readers not built"),
     "C17": ("DESIGN §2 C17", "duration rounding lands on the right multiple; subsecond rounding"),
